@@ -10,6 +10,7 @@ EXPLANATION = ('Header follows its fields: every function that changes filled / 
                '(complete_plan for every column) after all plans and before the record is closed; the in-memory free list changes under its lock together '
                'with the counters (C10.5); when a value disappears or moves, its index entry is removed or re-pointed in the same record; free-list links '
                'are range-checked against filled/written wherever they are followed.')
+EXPLANATION += " Added: the header is logged whenever dirty; the cleared index slot is the verified position; planning reads are shadowed by the writer's overlay; known findings F22 and F21."
 ASSUMPTIONS = ['DECLINED: slot accounting (no orphan / double use / leak) over histories, btree shape, node reference counts', 'unwind edges ignored']
 TRUSTED = ['rustc MIR construction (nightly)', 'pdb-facts driver', 'rule engine /verif/rules', 'anchor tables in props/C14.py']
 
